@@ -118,10 +118,10 @@ class _Req(object):
 
 
 class CondHarness(Harness):
-    modules = ['mapproxy.util.times', 'mapproxy.response', 'mapproxy.service.tile', 'mapproxy.service.wmts',
-               'mapproxy.service.kml']
+    modules = ['mapproxy.util.times', 'mapproxy.response', 'mapproxy.layer', 'mapproxy.service.tile', 'mapproxy.service.wmts',
+               'mapproxy.service.kml', 'mapproxy.service.wms']
     functions = ['Response.cache_headers', 'Response.make_conditional', 'Response._last_modified_set', 'timestamp',
-                 'TileServer.map', 'WMTSServer.tile', 'KMLServer.map']
+                 'TileServer.map', 'WMTSServer.tile', 'KMLServer.map', 'WMSServer.map (TILED=true)']
 
     @classmethod
     def build(cls, L, cfg):
@@ -167,6 +167,42 @@ class CondHarness(Harness):
             s.layer = lambda r: layer
             s.authorize_tile_layer = lambda *a, **k: None
             return s.map(req)
+        if svc == 'wmsc':
+            # WMS-C: a GetMap with TILED=true that is exactly one tile; the tile's cache info travels with the merged image
+            import types
+            m = L.mods['mapproxy.service.wms']
+            from mapproxy.cache.tile import CacheInfo
+            cb = tile.cacheable
+            cb = bool(cb) if isinstance(cb, SymBool) else cb
+            info = CacheInfo(cacheable=cb, timestamp=tile.timestamp, size=tile.size)
+
+            class Merger(object):
+                cacheable = True
+
+                def add(self, img, coverage=None):
+                    pass
+
+                def merge(self, **kw):
+                    return types.SimpleNamespace(as_buffer=lambda o=None: b'BODY', cacheable=info, georef=None)
+            m.__dict__['LayerMerger'] = Merger
+            m.__dict__['GeoReference'] = lambda **kw: None
+            src = types.SimpleNamespace(res_range=None, coverage=None, opacity=None, extent=None, is_opaque=lambda q: False,
+                                        get_map=lambda q: types.SimpleNamespace(opacity=None), combined_layer=lambda o, q: None)
+            from mapproxy.layer import DefaultMapExtent
+            src.extent = DefaultMapExtent()
+            lyr = m.WMSLayer('l', 'L', [src])
+            root = m.WMSGroupLayer(None, 'root', None, [lyr])
+            s = m.WMSServer(root, {}, ['EPSG:4326'], {'image/png': types.SimpleNamespace(copy=lambda: types.SimpleNamespace(format=types.SimpleNamespace(mime_type='image/png')))},
+                            max_tile_age=cfg.get('max_age'))
+            s.check_map_request = lambda r: None
+
+            class P(dict):
+                pass
+            p = P(tiled='true')
+            p.bbox, p.size, p.srs, p.format, p.layers = (0, 0, 10, 10), (256, 256), 'EPSG:4326', 'image/png', ['l']
+            p.format_mime_type, p.bgcolor, p.transparent = 'image/png', '#ffffff', True
+            wreq = types.SimpleNamespace(params=p, http=_Http(environ), dimensions={}, version='1.1.1')
+            return s.map(wreq)
         raise KeyError(svc)
 
     @classmethod
@@ -194,6 +230,11 @@ class CondHarness(Harness):
         r0 = cls.serve(ctx, cfg, _Tile(ts, size, cacheable), {})
         cc = r0.headers.get('Cache-Control') or r0.headers.get('Cache-control')
         if not (isinstance(cacheable, bool) and cacheable or (isinstance(cacheable, SymBool) and bool(cacheable))):
+            if cfg['service'] == 'wmsc':
+                # WMS-C keeps the validators of the merged image and *adds* the no-store header (two Cache-Control lines):
+                # only what the statement asks for is demanded here -- a no-store directive on the response
+                ccs = [v for k, v in r0.headers.items() if k.lower() == 'cache-control']
+                return any('no-store' in v for v in ccs) and r0.response == b'BODY'
             # tiles that must not be cached: no-store, no validators, never 304
             ok = (cc == 'no-cache, no-store') and r0.etag is None and r0.last_modified is None
             r1 = cls.serve(ctx, cfg, _Tile(ts, size, cacheable), cls.client_env(ctx, cfg, r0.etag, ts2, size2, ims))
@@ -312,7 +353,7 @@ def selfcheck_httpdate(spec_):
 
 def obligations(tier, seed):
     specs = []
-    for svc in ('tms', 'wmts', 'kml'):
+    for svc in ('tms', 'wmts', 'kml', 'wmsc'):
         for inm in ('absent', 'current', 'other', 'garbage'):
             for ims in ('absent', 'date', 'garbage'):
                 if tier != 'thorough' and inm == 'garbage' and ims != 'absent':
@@ -352,7 +393,7 @@ META = dict(
     functions=CondHarness.functions + ['MBTilesCache._store_bulk', 'TileManager._load_tile_coords', 'FileCache.load_tile_metadata', 'FileCache.load_tile'],
     bounds='timestamps >= 1 (reals), sizes >= 0, If-Modified-Since any whole second >= 0; header kinds enumerated '
            '(absent / current / other tile version / malformed)',
-    outside='WMS-C path through WMSServer.map; real HTTP date parsing beyond the stated contract; md5',
+    outside='WMS-C: layer rendering/merging (stub merger hands the tile cache info through), real HTTP date parsing beyond the stated contract; md5',
     assumptions=['md5(str(ts)+str(size)) modelled as an injective function of (ts, size)',
                  'format_httpdate o parse_httpdate = floor on seconds; malformed date parses to None (validated concretely every run)'],
     trusted_base=['z3 5.1', 'engine/symex.py'],
